@@ -182,6 +182,13 @@ def gen(rng, tier):
                 # the child handle (or the root) attached below the child: the receiver's own ancestor chain
                 ops.append({"op": "setchild", "h": nh, "name": "back", "idx": -1, "childHandle": rng.pick([0, nh]), "opts": bo})
                 ops.append({"op": "path", "h": nh})
+                if rng.chance(0.5):
+                    # ... and the same through a name that leads from the root (or from the child's parent) down through
+                    # the child: the place it would be stored at is below itself
+                    which = ops[-3]["name"]
+                    ops.append({"op": "setchild", "h": 0, "name": which + rng.pick([".back2", ".deeper.back", ".in.back" if which == "o" else ".q.0"]),
+                                "idx": rng.pick([-1, -1, 0]), "childHandle": nh, "opts": bo})
+                    ops.append({"op": "path", "h": nh})
             elif r < 9:
                 ops.append({"op": "setchild", "h": 0, "name": "a", "idx": -1, "childHandle": 0, "opts": bo})
                 ops.append({"op": "path", "h": 0})
@@ -236,7 +243,8 @@ def check_facts(facts):
         if es is None:
             new.append("%s: function with panic-capable sites is not in the reviewed inventory" % fn)
         elif sorted(es) != sorted(sites):
-            extra = [x for x in sites if x not in es]
+            # by count: a second occurrence of a reviewed expression is a new site
+            extra = sorted(set(x for x in sites if sites.count(x) > es.count(x)))
             if extra:
                 new.append("%s: unaccounted site(s) %s" % (fn, extra[:3]))
     if new:
@@ -244,7 +252,69 @@ def check_facts(facts):
     return None
 
 
-fix_candidate = TG.fix_typed_candidate
+def normalize_pair(case, impl, model):
+    if case.get("k") == "forest":
+        from .. import forest as FO
+        return FO.normalize_pair(case, impl, model)
+    return normalize_result(case, model), normalize_result(case, impl)
+
+
+def fix_candidate(cand, base):
+    if cand.get("k") == "forest":
+        ops = cand.get("ops")
+        if not isinstance(ops, list) or not all(isinstance(o, dict) and "op" in o for o in ops):
+            return None
+        live = set()
+        for o in ops:
+            needs = ([] if o["op"] == "new" else [o["r"]]) + [o[k] for k in ("child",) if k in o]
+            if any(x not in live for x in needs):
+                return None
+            if o["op"] == "new": live.add(o["r"])
+            if o["op"] == "child": live.add(o["to"])
+        return cand
+    return TG.fix_typed_candidate(cand, base)
+
+
+def cycle_cases(rng, tier):
+    """SetChild between relatives, over several configs: the receiver itself, its parents, a config the name leads through,
+    a config that holds the receiver by way of a second attachment, a former parent whose link went stale with a Remove.
+    Every config is dumped after every step: a structure containing itself, or a chain of parent links that does, ends
+    the process."""
+    PS = [opt("PathSep", ".")]
+    def new(r, t): return {"op": "new", "r": r, "from": t, "opts": PS}
+    def child(r, nm, to, idx=-1): return {"op": "child", "r": r, "name": nm, "idx": idx, "to": to, "opts": PS}
+    def setc(r, nm, ch, idx=-1): return {"op": "setchild", "r": r, "name": nm, "idx": idx, "child": ch, "opts": PS}
+    def rem(r, nm, idx=-1): return {"op": "remove", "r": r, "name": nm, "idx": idx, "opts": PS}
+    def rd(r): return {"op": "read", "r": r, "what": "view", "name": "", "idx": -1, "opts": PS}
+    directed = [
+        [new(0, M([("o", M([("in", M([("x", U(1))]))]))])), child(0, "o", 1), setc(0, "o.back", 1), rd(1)],
+        [new(0, M([("o", M([("in", M([("x", U(1))]))]))])), child(0, "o", 1), setc(0, "o.in.deeper.back", 1), rd(0)],
+        [new(0, M([("l", A([M([("x", U(1))])]))])), child(0, "l", 1, 0), setc(0, "l.0.q", 1, 2), rd(0)],
+        [new(0, M([("x", M([("k", M([("v", U(1))]))]))])), new(1, M([("w", U(1))])), child(0, "x", 2), setc(1, "y", 2), child(2, "k", 3),
+         setc(3, "z", 1), rd(1)],
+        [new(0, M([("a", U(1))])), new(1, M([("m", M([("v", U(1))]))])), child(1, "m", 2), rem(1, "m"), setc(0, "n", 2), setc(0, "n.z", 1), rd(2)],
+    ]
+    for i, ops in enumerate(directed):
+        yield {"k": "forest", "regs": 5, "ops": ops, "_tag": "cycles/directed", "_nt": True, "_sig": "cycle-directed|%d" % i}
+    names = ["o", "o.in", "k", "o.k", "o.in.k", "k.z", "l.0", "l.1.q", "back"]
+    for n in range(60 if tier == "quick" else 600):
+        ops = [new(0, M([("o", M([("in", M([("x", U(1))]))])), ("l", A([M([("y", U(2))])]))])), new(1, M([("k", M([("z", M([]))])), ("w", U(1))]))]
+        live = [0, 1]
+        for _ in range(4 + rng.below(6)):
+            r = rng.pick(live)
+            k = rng.below(10)
+            if k < 3:
+                to = rng.pick([2, 3, 4])
+                ops.append(child(r, rng.pick(names), to))
+                if to not in live: live.append(to)       # (stays empty when there is no such child: later uses are skipped)
+            elif k < 8:
+                ops.append(setc(r, rng.pick(names), rng.pick(live), rng.pick([-1, -1, -1, 0, 1])))
+            elif k < 9:
+                ops.append(rem(r, rng.pick(names)))
+            else:
+                ops.append(rd(r))
+        yield {"k": "forest", "regs": 5, "ops": ops, "_tag": "cycles/random", "_nt": True,
+               "_sig": "cycle-random|%d|%s" % (len(ops), ",".join(sorted(set(o["op"] for o in ops))))}
 
 
 _gen_streams = gen
@@ -253,6 +323,7 @@ _gen_streams = gen
 def gen(rng, tier):
     yield from _gen_streams(rng, tier)
     yield from odd_cases(rng.fork("odd"), tier)
+    yield from cycle_cases(rng.fork("cycles"), tier)
 
 
 def nontrivial(case, impl):
